@@ -53,7 +53,7 @@ for _p in sorted(_glob.glob(_os.path.join(_os.path.dirname(_os.path.abspath(__fi
 
 # re-entrancy monitor (DESIGN.md 4, "schedules"): every C check gets a configuration "mt" built with -fsanitize=thread, in which the
 # anchored routines are run alone and then from four threads at once on private data (harness/vf_mt.h). C17-C19 name theirs in the spec.
-_MT_READY = [1, 2, 3]
+_MT_READY = [1, 2, 3, 4, 5, 6, 7, 8, 9, 10, 11, 12, 13, 14, 15, 16]
 
 
 def _with_mt(spec, n, extra=()):
